@@ -1124,6 +1124,43 @@ fn main() {
   list_text.push_str("  }\n}\n");
   drivers.push(("list cases".to_string(), list_text));
 
+  // ---- element kinds: the collections over user-defined value types (enums with the payload variant
+  // first / last, structs, nested options, strings, bools), through the compiled code ----
+  {
+    let mut text = String::from("import { Int } from std.boxed\nimport { Option } from std.option\nimport { Map } from std.map\nimport { List } from std.list\nimport { H } from verif.H\n");
+    text.push_str("class Cell(Filled(int, int), Vacant) {\n  method show(): Str = match this { Filled(a, b) -> \"F\" :: Str.fromInt(a) :: \",\" :: Str.fromInt(b), Vacant -> \"V\" }\n}\n");
+    text.push_str("class Slot(Empty, Taken(int, int)) {\n  method show(): Str = match this { Empty -> \"E\", Taken(a, b) -> \"T\" :: Str.fromInt(a) :: \",\" :: Str.fromInt(b) }\n}\n");
+    text.push_str("class Rec(val a: int, val b: Str) {\n  method show(): Str = \"R\" :: Str.fromInt(this.a) :: this.b\n}\n");
+    text.push_str("class One(Only(int)) {\n  method show(): Str = match this { Only(n) -> \"O\" :: Str.fromInt(n) }\n}\n");
+    text.push_str("class Main {\n");
+    let kinds: [(&str, &str, [&str; 3], &str); 8] = [
+      ("Cell", "Cell", ["Cell.Vacant()", "Cell.Filled(1, 2)", "Cell.Vacant()"], "x.show()"),
+      ("Slot", "Slot", ["Slot.Empty()", "Slot.Taken(1, 2)", "Slot.Empty()"], "x.show()"),
+      ("Rec", "Rec", ["Rec.init(1, \"a\")", "Rec.init(2, \"\")", "Rec.init(0, \"z\")"], "x.show()"),
+      ("One", "One", ["One.Only(0)", "One.Only(1)", "One.Only(-1)"], "x.show()"),
+      ("Str", "Str", ["\"\"", "\"s\"", "\"longer string value\""], "x"),
+      ("Bool", "bool", ["true", "false", "true"], "(if x { \"t\" } else { \"f\" })"),
+      ("OptCell", "Option<Cell>", ["Option.None<Cell>()", "Option.Some(Cell.Vacant())", "Option.Some(Cell.Filled(3, 4))"], "(match x { None -> \"none\", Some(c) -> \"some \" :: c.show() })"),
+      ("OptInt", "Option<int>", ["Option.None<int>()", "Option.Some(0)", "Option.Some(1)"], "(match x { None -> \"none\", Some(n) -> \"some \" :: Str.fromInt(n) })"),
+    ];
+    for (kname, ty, vals, show) in kinds {
+      text.push_str(&format!("  function show{kname}(x: {ty}): Str = {show}\n"));
+      text.push_str(&format!("  function opt{kname}(o: Option<{ty}>): Str = match o {{ None -> \"absent\", Some(x) -> \"present \" :: Main.show{kname}(x) }}\n"));
+      text.push_str(&format!("  function run{kname}(): unit = {{\n    let m = Map.empty<Int, {ty}>().insert(H.key(1), {}).insert(H.key(2), {}).insert(H.key(4), {});\n", vals[0], vals[1], vals[2]));
+      text.push_str(&format!("    Process.println(\"{kname} get: \" :: Main.opt{kname}(m.get(H.key(1))) :: \" | \" :: Main.opt{kname}(m.get(H.key(2))) :: \" | \" :: Main.opt{kname}(m.get(H.key(3))) :: \" | \" :: Main.opt{kname}(m.get(H.key(4))));\n"));
+      text.push_str(&format!("    let u = m.update(H.key(1), (o) -> match o {{ None -> Option.Some({}), Some(_) -> Option.Some({}) }}).update(H.key(3), (o) -> match o {{ None -> Option.Some({}), Some(v) -> Option.Some(v) }}).remove(H.key(2));\n", vals[1], vals[1], vals[2]));
+      text.push_str(&format!("    Process.println(\"{kname} updated: \" :: Main.opt{kname}(u.get(H.key(1))) :: \" | \" :: Main.opt{kname}(u.get(H.key(2))) :: \" | \" :: Main.opt{kname}(u.get(H.key(3))) :: \" size \" :: Str.fromInt(u.size()));\n"));
+      text.push_str(&format!("    Process.println(\"{kname} first: \" :: Main.opt{kname}(List.of({}).first()) :: \" | \" :: Main.opt{kname}(List.of({}).cons({}).first()) :: \" | \" :: Main.opt{kname}(List.nil<{ty}>().first()));\n", vals[0], vals[0], vals[1]));
+      text.push_str(&format!("    Process.println(\"{kname} mapped: \" :: Main.opt{kname}(Option.Some({}).map((x) -> x)) :: \" | \" :: Main.opt{kname}(m.get(H.key(4)).map((x) -> x)))\n  }}\n", vals[0]));
+    }
+    text.push_str("  function main(): unit = {\n");
+    for (kname, _, _, _) in kinds {
+      text.push_str(&format!("    Main.run{kname}();\n"));
+    }
+    text.push_str("  }\n}\n");
+    drivers.push(("element kinds".to_string(), text));
+  }
+
   // ---- run every driver: refsem (reference), Wasm and TS (implementation) ----
   let std_mods: Vec<(String, String)> = vcore::corpus::repo_files().into_iter().filter(|f| f.name.starts_with("std/")).map(|f| (f.module, f.text)).collect();
   let mut traces_validated = 0u64;
